@@ -136,6 +136,8 @@ class Poly:
             return msgs
         proj = bool(op.get("projection"))
         N = op.get("N")
+        if N is not None:   # the same count passed as a python int or as a numpy integer
+            N = {0: int, 1: np.int64, 2: np.int32, 3: np.intp}[op.get("N_form", 0)](N)
         lat = lattice_cached(self.kind, self.level)
         if op["op"] == "nodes":
             avail = len(lat)
@@ -258,18 +260,18 @@ def _machine_shard(arg):
                 self._do({"op": "divide"})
 
             @precondition(lambda self: self.p is not None)
-            @rule(projection=st.booleans(), frac=st.one_of(st.none(), st.floats(0, 1.2)))
-            def get_nodes(self, projection, frac):
+            @rule(projection=st.booleans(), frac=st.one_of(st.none(), st.floats(0, 1.2)), form=st.integers(0, 3))
+            def get_nodes(self, projection, frac, form):
                 avail = len(lattice_cached(self.p.kind, self.p.level))
                 N = None if frac is None else int(round(frac * avail))
-                self._do({"op": "nodes", "projection": projection, "N": N})
+                self._do({"op": "nodes", "projection": projection, "N": N, "N_form": form})
 
             @precondition(lambda self: self.p is not None and self.p.kind == "cube4D")
-            @rule(projection=st.booleans(), frac=st.one_of(st.none(), st.floats(0, 1.2)))
-            def get_half(self, projection, frac):
+            @rule(projection=st.booleans(), frac=st.one_of(st.none(), st.floats(0, 1.2)), form=st.integers(0, 3))
+            def get_half(self, projection, frac, form):
                 avail = len(lattice_cached(self.p.kind, self.p.level)) // 2
                 N = None if frac is None else int(round(frac * avail))
-                self._do({"op": "half", "projection": projection, "N": N})
+                self._do({"op": "half", "projection": projection, "N": N, "N_form": form})
 
             def teardown(self):
                 if self.p is not None and self.p.ops:
@@ -289,7 +291,8 @@ def _fixed_history(arg):
     res = Result()
     ops = []
     for lv in range(top + 1):
-        ops += [{"op": "nodes", "projection": False, "N": None}, {"op": "nodes", "projection": True, "N": None}]
+        ops += [{"op": "nodes", "projection": False, "N": None}, {"op": "nodes", "projection": True, "N": None},
+                {"op": "nodes", "projection": False, "N": 5, "N_form": 1 + lv % 3}, {"op": "nodes", "projection": True, "N": 7, "N_form": lv % 4}]
         if kind == "cube4D":
             ops += [{"op": "half", "projection": False, "N": None}, {"op": "half", "projection": True, "N": 5}]
         if lv < top:
